@@ -29,8 +29,17 @@ Counts too large to be consumed (part "huge counts": 2**31, 2**32, 2**53, 2**63,
 sys.maxsize + 8, 10**20, 10**100, 10**400) are valid integers >= 0: the first values are examined like those of
 'repeat' (the iteration must not end or raise within the observed head, which reaches past the arrival at stop);
 backoff() is not called for them (the list could not be built).
+
+Top of the double range (part "top of the double range"): starts at 1e308, max/4, max/2 and the largest double with
+stops up to the largest double, without jitter and with jitter of either sign - there start*factor and b*(1-j)
+overflow; a value of inf is inside an interval whose far end b*(1-j) is inf, a nan is inside no interval.
+
+Argument types (part "integer arguments"): the same numbers passed as Python ints (exact start*factor**k, +-1, up to
+2**128, far beyond the 2**53 where ints stop being doubles), as ints with a float stop, and as fractions.Fraction;
+the reference is the recurrence on their float() values (the sequence is one of floats).
 """
 import itertools
+from fractions import Fraction
 import math
 import signal
 import sys
@@ -76,6 +85,40 @@ def big_counts():
     return tuple(out)
 
 
+TOP = sys.float_info.max
+
+
+def typed(p):
+    """The parameters as they are passed to the code under test: case['as'] == 'Fraction' turns start / stop /
+    factor (kept as ints in the case so that it stays JSON-able) and a numeric jitter into fractions.Fraction
+    (exact)."""
+    if p.get('as') != 'Fraction':
+        return p
+    q = dict(p)
+    for k in ('start', 'stop', 'factor'):
+        q[k] = Fraction(p[k])
+    if p['jitter'] is not False and p['jitter'] is not True:
+        q['jitter'] = Fraction(p['jitter'])
+    return q
+
+
+def same(a, b):
+    """Equal sequences of values, a nan being equal to a nan at the same place (the nan itself is reported by the
+    value clauses; it must not look like a difference between two calls)."""
+    if not isinstance(a, list) or not isinstance(b, list):
+        return a == b
+    return len(a) == len(b) and all(x == y or (x != x and y != y) for x, y in zip(a, b))
+
+
+def top_stops(start):
+    """Finite stops from start up to the largest double (start*2 and start*4 overflow for the larger starts)."""
+    out = []
+    for x in (start, up(start), start * 1.5, start * 2.0, start * 4.0, down(TOP), TOP):
+        if x == x and x != INF and x not in out:
+            out.append(x)
+    return out
+
+
 def head_only(count):
     """Counts whose values cannot all be taken: 'repeat' and integers above HEAD_ONLY_ABOVE."""
     return count == 'repeat' or (count is not None and count > HEAD_ONLY_ABOVE)
@@ -113,6 +156,15 @@ def tier_bounds(tier):
             'long_big': ((1.0, 1.0001, 2 ** 16),),
             'big_starts': (1.0, 0.0, 0.25, 3.0, 5e-324, 1e300),
             'big_factors': (2.0, 10.0, 1.5, 1.0, ONE_P),
+            'top_starts': (1e308, TOP / 4, TOP / 2, TOP),
+            'top_factors_default_count': (2.0, 1.5, 10.0),
+            'top_factors_explicit_count_only': (1.0,),
+            'top_counts': (None, 3, 'repeat'),
+            'top_repeat_items': 4,
+            'top_jitters': (False, -1.0, -0.5, -0.3, 1.0, 0.5),
+            'int_starts': (1, 0, 2, 3, 2 ** 53 + 1),
+            'int_factors': (10, 2, 3, 5, 7),
+            'int_limit': 2 ** 128,
         }
     return {
         'starts': (1.0, 0.0, 0.5, 0.25, 1.5, 3.0, 10.0, 1e6, 1e-9, 5e-324, 2.0, 7.0, 0.1, 1e3, 1e-300,
@@ -135,6 +187,15 @@ def tier_bounds(tier):
                           for n in (2 ** 15, 2 ** 16, 100000, 2 ** 17)),
         'big_starts': (1.0, 0.0, 0.5, 0.25, 1.5, 3.0, 10.0, 1e6, 1e-9, 5e-324),
         'big_factors': (2.0, 10.0, 3.0, 1.5, 1.1, math.e, 1.0, ONE_P),
+        'top_starts': (1e308, 1e307, 6e307, TOP / 8, TOP / 4, TOP / 3, TOP / 2, down(TOP), TOP),
+        'top_factors_default_count': (2.0, 1.5, 10.0, 1.1, 3.0),
+        'top_factors_explicit_count_only': (1.0, ONE_P),
+        'top_counts': (None, 1, 3, 5, 'repeat'),
+        'top_repeat_items': 5,
+        'top_jitters': (False, True, -1.0, -0.5, -0.3, -2.0 ** -52, 1.0, 0.5, 0.3),
+        'int_starts': (1, 0, 2, 3, 7, 10, 1000, 2 ** 53 + 1, 10 ** 17 + 1, 2 ** 64 + 1),
+        'int_factors': (10, 2, 3, 5, 7, 6, 100, 1000),
+        'int_limit': 2 ** 256,
     }
 
 
@@ -215,10 +276,10 @@ def module_int_constants():
 # edge menu: every combination is classified by the statement's own validity predicate; it contains the
 # invalid values of each parameter next to valid ones (ints on purpose: the functions accept numbers)
 MENU = {
-    'start': (1, 0, 3, -1, -5e-324),
+    'start': (1, 0, 3, -1, -5e-324, -0.0),
     'stop': (10, 1, down(1.0), 0, -1),
     'factor': (2, 1, 1.0 - 2.0 ** -53, 0.5, 0, -2),
-    'jitter': (False, 0.5, 1, -1, True, 1.5, -ONE_P, 2, -2, 0.0),
+    'jitter': (False, 0.5, 1, -1, True, 1.5, -ONE_P, 2, -2, 0.0, 5e-324, -1e-17),
     'count': (None, 0, 1, 5, 'repeat', -1, -5, sys.maxsize + 1, 10 ** 20, -10 ** 20),
 }
 
@@ -431,6 +492,7 @@ def observe(seam, fn, p, draws, pull, mode='mixed', extras=False):
     seam.notes as (what, expected, observed)."""
     seam.sr.load(draws)
     seam.notes = notes = []
+    p = typed(p)
     kw = {'count': p['count'], 'factor': p['factor'], 'jitter': p['jitter']}
     vals = []
     try:
@@ -445,17 +507,17 @@ def observe(seam, fn, p, draws, pull, mode='mixed', extras=False):
                     del ret[:1]
                 seam.sr.load(draws)
                 second = list(seam.iu.backoff(p['start'], p['stop'], **kw))
-                if second == first and extras:
+                if same(second, first) and extras:
                     seam.sr.load(draws)
                     try:
                         third = list(seam.iu.backoff(*call_forms(p)[1]))
                     except Exception as e:
                         third = 'raised ' + type(e).__name__
-                    if third != first:
+                    if not same(third, first):
                         notes.append(('all arguments positional: result differs from the call with keywords',
                                       first[:8], third[:8]))
                 signal.setitimer(signal.ITIMER_VIRTUAL, 0)
-                if second != first:
+                if not same(second, first):
                     return 'second-call-differs', [first, second]
                 return 'done', first
             it = seam.iu.backoff_iter(p['start'], p['stop'], **kw)
@@ -498,7 +560,7 @@ def observe(seam, fn, p, draws, pull, mode='mixed', extras=False):
                     seam.sr.load(draws)
                     tv = []
                     consume_next(twin, min(3, pull), tv)
-                    if tv != vals[:len(tv)] or len(tv) < min(3, len(vals)):
+                    if not same(tv, vals[:len(tv)]) or len(tv) < min(3, len(vals)):
                         notes.append(('twin iterator made with equal arguments (keywords, defaults omitted) before '
                                       'the first was consumed gives different first values', vals[:3], tv))
                 except Exception as e:
@@ -635,7 +697,7 @@ def check_case(seam, p, draws, repeat_items=REPEAT_ITEMS, extras=True):
     if status2 == 'second-call-differs':
         res.append(('C15|fn:backoff|second call with equal arguments differs after the caller changed the first result',
                     vals2[0][:8], vals2[1][:8]))
-    elif (status2, vals2) != (status, vals):       # same outcome -> already judged above
+    elif status2 != status or not same(vals2, vals):       # same outcome -> already judged above
         for what, exp, obs in judge(p, status2, vals2, repeat_items):
             res.append(('C15|fn:backoff|' + what, exp, obs))
     for what, exp, obs in seam.notes:
@@ -732,6 +794,42 @@ def shard_big(arg):
     return t
 
 
+def shard_top(arg):
+    start, factor, jitter, counts, repeat_items = arg
+    t = inputs.Tally()
+    with Seam() as seam:
+        for stop in top_stops(start):
+            for count in counts:
+                p = {'start': start, 'stop': stop, 'count': count, 'factor': factor, 'jitter': jitter}
+                run_point(seam, t, p, repeat_items)
+    return t
+
+
+def shard_int(arg):
+    """start, factor and stop as Python ints: stop = start*factor**k exactly (and its two integer neighbours) up to
+    `limit`.  Forms: all ints (default count, a count past the arrival, 'repeat'); ints with the stop as a float;
+    all three as fractions.Fraction (default count)."""
+    start, factor, limit = arg
+    t = inputs.Tally()
+    with Seam() as seam:
+        v, k = start or 1, 0
+        while v <= limit:
+            for stop in (v, v + 1, v - 1):
+                p = {'start': start, 'stop': stop, 'count': None, 'factor': factor, 'jitter': False}
+                run_point(seam, t, p, REPEAT_ITEMS)
+                run_point(seam, t, dict(p, count=k + 4), REPEAT_ITEMS)
+                run_point(seam, t, dict(p, count='repeat'), k + 4)
+                run_point(seam, t, dict(p, stop=float(stop)), REPEAT_ITEMS)
+                t_p = dict(p)
+                t_p['as'] = 'Fraction'
+                run_point(seam, t, t_p, REPEAT_ITEMS)
+                if k <= 3:          # jitter given as a Fraction too; two values: every script of two draws
+                    for jitter in (0.5, -1.0):
+                        run_point(seam, t, dict(t_p, count=2, jitter=jitter), REPEAT_ITEMS)
+            v, k = v * factor, k + 1
+    return t
+
+
 def shard_menu(arg):
     start, stop = arg
     t = inputs.Tally()
@@ -788,6 +886,27 @@ def run(ctx):
         rule='jitter=False; integer counts around 2**31, 2**32, 2**53, sys.maxsize, 2**63, 2**64 and 10**20, 10**100, '
              '10**400; the first %d values are examined (stop is reached within 7), backoff() is not called' % BIG_HEAD))
 
+    tops = []
+    for start in B['top_starts']:
+        for jitter in B['top_jitters']:
+            for factor in B['top_factors_default_count']:
+                tops.append((start, factor, jitter, B['top_counts'], B['top_repeat_items']))
+            for factor in B['top_factors_explicit_count_only']:
+                tops.append((start, factor, jitter, tuple(c for c in B['top_counts'] if c is not None),
+                             B['top_repeat_items']))
+    totals.append(inputs.run_shards(
+        ctx, shard_top, tops, part='top of the double range: start x factor x stop x count x jitter x draws',
+        rule='starts and stops within a factor of 18 of the largest double (start*factor and b*(1-j) overflow); '
+             'no jitter and jitter of either sign x every draw sequence for the first 5 positions'))
+
+    ints = [(start, factor, B['int_limit']) for factor in B['int_factors'] for start in B['int_starts']]
+    totals.append(inputs.run_shards(
+        ctx, shard_int, ints, part='integer arguments: int start x int factor x exact int stop x count x form',
+        rule='jitter=False; stop = start*factor**k as an exact int and its neighbours +-1, every k up to the limit; '
+             "all ints with the default count, count=k+4 and 'repeat'; ints with a float stop and all three as "
+             'fractions.Fraction with the default count; for k <= 3 also count=2 with a jitter of 1/2 and -1 given '
+             'as a Fraction x every draw sequence'))
+
     menu = [(a, b) for a in MENU['start'] for b in MENU['stop']]
     totals.append(inputs.run_shards(
         ctx, shard_menu, menu, part='edge menu: valid and invalid values of every parameter',
@@ -818,6 +937,12 @@ def run(ctx):
         'jitter_part_default_count_max_reference_length': JITTER_MAX_LEN,
         'repeat_items_examined': REPEAT_ITEMS,
         'edge_menu': {k: list(v) for k, v in MENU.items()},
+        'top_of_the_double_range': {'stops': 'start, start+1ulp, start*1.5, start*2, start*4, max-1ulp, max (the '
+                                             'finite ones)', 'largest double': TOP},
+        'integer_arguments': {'limit': str(B['int_limit']), 'forms': ['int, int, int', 'int start / factor, float stop',
+                                                                     'Fraction, Fraction, Fraction'],
+                              'not_explored': 'ints beyond the double range (float() of them overflows), Decimal, '
+                                              'numpy scalars, float subclasses'},
         'huge_counts': {'counts': [str(c) if c > 2 ** 70 else c for c in big_counts()], 'k': list(BIG_KS),
                         'values_examined': BIG_HEAD, 'observed_like_repeat_above': HEAD_ONLY_ABOVE},
         'consumption': 'one backoff_iter object: next(), for loop left early, islice chunk, for loop, asked again '
@@ -847,6 +972,10 @@ def run(ctx):
         'at fixed split positions 1 / 3 / 5; send(), throw(), copy and pickling are not examined',
         'long sequences (more than k_max values) are examined only at the listed lengths (powers of two, 1000, 10000, '
         'integer constants of the module, each with its neighbours) for the listed slow factors and starts',
+        'numbers that are not floats (ints of any size within the double range, Fractions) stand for their float() '
+        'value: the reference is the float recurrence on float(start), float(stop), float(factor)',
+        'at the top of the double range a yielded inf counts as inside the jitter interval when its far end b*(1-j) '
+        'overflows to inf; nan is inside no interval',
         'a call that does not return within %gs of CPU time is reported as a hang (never reached otherwise)' % HANG_S,
     ]
 
@@ -854,6 +983,8 @@ def run(ctx):
 def replay(ctx, data):
     case = data['case']
     p = {k: case[k] for k in ('start', 'stop', 'count', 'factor', 'jitter')}
+    if case.get('as'):
+        p['as'] = case['as']
     msgs = []
     with Seam() as seam:
         if not in_scope(p):
